@@ -407,11 +407,10 @@ theorem c20_cpTailStep_inv [AddCommMonoid S] (h : BoltCp) {half h2 : Nat} (ok : 
 theorem c20_cpTail_spec [AddCommMonoid S] (h : BoltCp) {half h2 : Nat} (ok : c20_CpOK h half h2)
     (outs : List (Option (Array S))) (O : Nat → Nat → S)
     (houts : ∀ or, or < h.orc → ∃ v, outs.getD or none = some v ∧ v.size = h.N ∧ ∀ p, p < h.N → v.getD p 0 = O or p) :
-    ∃ fin : Array S,
-      (let st := (List.range h.orc).reverse.foldl (c20_cpTailStep h outs) (none, none)
-       match st.2 with
-       | some hv => accAdd (· + ·) 0 h.N st.1 hv
-       | none => st.1) = some fin ∧ fin.size = h.N ∧
+    ∃ (hv fin : Array S),
+      ((List.range h.orc).reverse.foldl (c20_cpTailStep h outs) (none, none)).2 = some hv ∧
+      accAdd (· + ·) 0 h.N ((List.range h.orc).reverse.foldl (c20_cpTailStep h outs) (none, none)).1 hv = some fin ∧
+      fin.size = h.N ∧
       ∀ p, p < h.N → fin.getD p 0
         = ∑ or ∈ range h2, O or ((c20_rho (half * h.gap) (h.irc * h.gap))^[or] p)
           + ∑ or ∈ Ico h2 h.orc, O or ((c20_rho (half * h.gap) (h.irc * h.gap))^[or - h2] (c20_sigma (half * h.gap) p)) := by
@@ -440,7 +439,7 @@ theorem c20_cpTail_spec [AddCommMonoid S] (h : BoltCp) {half h2 : Nat} (ok : c20
   obtain ⟨hv, hhv⟩ := Option.ne_none_iff_exists'.mp (inv.hf_some (Nat.zero_le _))
   have hne : accAdd (· + ·) 0 h.N st.1 hv ≠ none := c20_accAdd_ne_none _ _ _ _
   obtain ⟨fin, hfin⟩ := Option.ne_none_iff_exists'.mp hne
-  refine ⟨fin, by simp only [hhv]; exact hfin, c20_accAdd_wf _ _ _ _ (inv.wf2 hv hhv) fin hfin, ?_⟩
+  refine ⟨hv, fin, hhv, hfin, c20_accAdd_wf _ _ _ _ (inv.wf2 hv hhv) fin hfin, ?_⟩
   intro p hp
   have h1 := c20_accAdd_og h.N st.1 hv hp
   rw [hfin] at h1
@@ -453,5 +452,393 @@ theorem c20_cpTail_spec [AddCommMonoid S] (h : BoltCp) {half h2 : Nat} (ok : c20
   congr 1
   rw [Finset.range_eq_Ico]
   rfl
+
+/-! ### the slot maps of the tail in (column, entry) form -/
+
+theorem c20_rho_iter_col {half gap irc : Nat} (hh : 0 < half) (a c t : Nat) (hc : c < 2 * half) (ht : t < gap) :
+    (c20_rho (half * gap) (irc * gap))^[a] (c * gap + t) = (c / half * half + (c % half + a * irc) % half) * gap + t := by
+  have hg : 0 < gap := by omega
+  have hp : c * gap + t < 2 * (half * gap) := by
+    have := c20_succ_mul_le (ib := gap) hc
+    rw [← Nat.mul_assoc]; omega
+  rw [c20_rho_iter (Nat.mul_pos hh hg) hp]
+  unfold c20_rho
+  obtain ⟨d1, d2⟩ := c20_col_divmod (x := c) (w := half) hh ht
+  rw [d1, d2]
+  have e : c % half * gap + t + a * (irc * gap) = (c % half + a * irc) * gap + t := by ring
+  rw [e, (c20_col_divmod (x := c % half + a * irc) (w := half) hh ht).2]
+  ring
+
+theorem c20_sigma_col {half gap : Nat} (hh : 0 < half) (c t : Nat) (ht : t < gap) :
+    c20_sigma (half * gap) (c * gap + t) = (c + half) % (2 * half) * gap + t := by
+  unfold c20_sigma
+  have e : c * gap + t + half * gap = (c + half) * gap + t := by ring
+  rw [e, ← Nat.mul_assoc, (c20_col_divmod (x := c + half) (w := 2 * half) (by omega) ht).2]
+
+/-- the first half of the giant steps: `or` rotations by `irc` columns move column `boltShift half k (or·irc)` to column `k` -/
+theorem c20_cp_connect_lo {half gap irc h2 : Nat} (hhalf : half = irc * h2) (hh : 0 < half) {or k t : Nat} (hor : or < h2)
+    (hk : k < 2 * half) (ht : t < gap) :
+    (c20_rho (half * gap) (irc * gap))^[or] (k * gap + t) = boltShift half k (or * irc) * gap + t := by
+  rw [c20_rho_iter_col hh or k t hk ht]
+  congr 2
+  have hlt : or * irc < half := by
+    rw [hhalf, Nat.mul_comm irc]
+    exact Nat.mul_lt_mul_of_pos_right hor (by
+      rcases Nat.eq_zero_or_pos irc with h | h
+      · rw [h] at hhalf; omega
+      · exact h)
+  have hq : k / half < 2 := by rw [Nat.div_lt_iff_lt_mul hh]; omega
+  unfold boltShift
+  rw [Nat.div_eq_of_lt hlt, Nat.zero_add, Nat.mod_eq_of_lt hq, Nat.add_comm (k / half * half), Nat.add_comm (k % half),
+    Nat.add_mod_mod]
+
+/-- the second half: the row exchange followed by `or − orc/2` rotations -/
+theorem c20_cp_connect_hi {half gap irc h2 : Nat} (hhalf : half = irc * h2) (hh : 0 < half) {or k t : Nat} (hor1 : h2 ≤ or)
+    (hor2 : or < 2 * h2) (hk : k < 2 * half) (ht : t < gap) :
+    (c20_rho (half * gap) (irc * gap))^[or - h2] (c20_sigma (half * gap) (k * gap + t)) = boltShift half k (or * irc) * gap + t := by
+  rw [c20_sigma_col hh k t ht, ← c20_shift_half hh hk,
+    c20_rho_iter_col hh (or - h2) _ t (c20_boltShift_lt half k half hh) ht]
+  congr 2
+  obtain ⟨d1, m1⟩ := c20_boltShift_split half k half hh
+  have hirc : 0 < irc := by
+    rcases Nat.eq_zero_or_pos irc with h | h
+    · rw [h] at hhalf; omega
+    · exact h
+  have hlt : (or - h2) * irc < half := by
+    rw [hhalf, Nat.mul_comm irc]
+    exact Nat.mul_lt_mul_of_pos_right (by omega) hirc
+  have e : or * irc = half + (or - h2) * irc := by
+    have : or = h2 + (or - h2) := by omega
+    calc or * irc = (h2 + (or - h2)) * irc := by rw [← this]
+      _ = _ := by rw [hhalf]; ring
+  rw [d1, m1, Nat.div_self hh, Nat.add_mod_left]
+  unfold boltShift
+  rw [e, Nat.add_assoc, Nat.add_mod_left, Nat.add_div_left _ hh, Nat.div_eq_of_lt hlt, Nat.zero_add,
+    Nat.add_comm (k % half), Nat.add_mod_mod, Nat.add_comm (((or - h2) * irc + k) % half)]
+
+/-! ### `MatmulBoltCpSmall::multiply` -/
+
+theorem c20_mapM_spec {α β : Type} (f : α → R β) (P : α → β → Prop) :
+    ∀ (l : List α), (∀ a ∈ l, ∃ b, f a = .ok b ∧ P a b) →
+      ∃ bs, l.mapM f = .ok bs ∧ bs.length = l.length ∧ ∀ i (hi : i < l.length), ∃ b, bs[i]? = some b ∧ P l[i] b
+  | [], _ => ⟨[], by simp [pure, Except.pure], rfl, fun i hi => by simp at hi⟩
+  | a :: l, h => by
+    obtain ⟨b, hb, hP⟩ := h a (by simp)
+    obtain ⟨bs, hbs, hlen, hall⟩ := c20_mapM_spec f P l (fun a' ha' => h a' (by simp [ha']))
+    refine ⟨b :: bs, by rw [List.mapM_cons, hb, hbs]; rfl, by simp [hlen], ?_⟩
+    intro i hi
+    cases i with
+    | zero => exact ⟨b, rfl, hP⟩
+    | succ i =>
+      obtain ⟨b', hb', hP'⟩ := hall i (by simpa using hi)
+      exact ⟨b', by simpa using hb', by simpa using hP'⟩
+
+theorem c20_mapM_spec' {α β : Type} (f : α → R β) (P : α → β → Prop) (Q : List β → Prop) (l : List α)
+    (h1 : ∀ a ∈ l, ∃ b, f a = .ok b ∧ P a b)
+    (h2 : ∀ bs, bs.length = l.length → (∀ i (hi : i < l.length), ∃ b, bs[i]? = some b ∧ P l[i] b) → Q bs) :
+    ∃ bs, l.mapM f = .ok bs ∧ Q bs := by
+  obtain ⟨bs, hbs, hlen, hall⟩ := c20_mapM_spec f P l h1
+  exact ⟨bs, hbs, h2 bs hlen hall⟩
+
+theorem c20_pairs_ne_nil {A C : Nat} (hA : 0 < A) (hC : 0 < C) : pairs A C ≠ [] :=
+  List.ne_nil_of_mem (c20_mem_pairs.mpr ⟨hA, hC⟩ : ((0, 0) : Nat × Nat) ∈ pairs A C)
+
+theorem c20_ceilDiv_pos {a b : Nat} (ha : 0 < a) (hb : 0 < b) : 0 < ceilDiv a b := by
+  unfold ceilDiv
+  exact Nat.div_pos (by omega) hb
+
+/-- **`MatmulBoltCpSmall::multiply`** for one row part, on ANY input polynomials `fa j` and weight polynomials `fB ir or i j`: the
+    schedule never fails and output polynomial `i` holds at column `k`, entry `t`
+    `Σ_or Σ_ir Σ_j (fa j)[boltShift half k (or·irc + ir)][t] · (fB ir or i j)[boltShift half k (or·irc)][t]` -/
+theorem c20_cpMulPart_spec [CommRing S] (h : BoltCp) {half h2 : Nat} (ok : c20_CpOK h half h2)
+    (fa : Nat → Array S) (fB : Nat → Nat → Nat → Nat → Array S) :
+    ∃ Yp, boltCpMulPart h (· + ·) (· * ·) 0 ((List.range (ceilDiv h.r h.s)).map fa)
+        ((pairs h.irc h.orc).map fun io => (pairs (ceilDiv h.n h.s) (ceilDiv h.r h.s)).map fun ij => fB io.1 io.2 ij.1 ij.2) = .ok Yp ∧
+      Yp.length = ceilDiv h.n h.s ∧
+      ∀ i, i < ceilDiv h.n h.s → ∃ v, Yp[i]? = some v ∧ v.size = h.N ∧ ∀ k t, k < h.s → t < h.gap →
+        v.getD (k * h.gap + t) 0 = ∑ or ∈ range h.orc, ∑ ir ∈ range h.irc, ∑ j ∈ range (ceilDiv h.r h.s),
+          (fa j).getD (boltShift half k (or * h.irc + ir) * h.gap + t) 0
+            * (fB ir or i j).getD (boltShift half k (or * h.irc) * h.gap + t) 0 := by
+  have hh := ok.half_pos
+  have hspos : 0 < h.s := by rw [ok.hs]; omega
+  have hic : 0 < ceilDiv h.r h.s := c20_ceilDiv_pos ok.hr hspos
+  unfold boltCpMulPart
+  simp only [List.length_map, List.length_range, ne_eq, not_true_eq_false, if_false]
+  refine c20_mapM_spec' _ (fun (i : Nat) (v : Array S) => v.size = h.N ∧ ∀ k t, k < h.s → t < h.gap →
+        v.getD (k * h.gap + t) 0 = ∑ or ∈ range h.orc, ∑ ir ∈ range h.irc, ∑ j ∈ range (ceilDiv h.r h.s),
+          (fa j).getD (boltShift half k (or * h.irc + ir) * h.gap + t) 0
+            * (fB ir or i j).getD (boltShift half k (or * h.irc) * h.gap + t) 0) _ (List.range (ceilDiv h.n h.s)) ?_ ?_
+  swap
+  · intro Yp hlen hall
+    refine ⟨by simpa using hlen, ?_⟩
+    intro i hi
+    obtain ⟨v, hv, hP⟩ := hall i (by simpa using hi)
+    rw [List.getElem_range] at hP
+    exact ⟨v, hv, hP⟩
+  intro i _hmem
+  -- the classes
+  let gterm : Nat → Nat × Nat → Array S := fun or x =>
+    slotZip (· * ·) 0 h.N (boltCpRotIn h 0 (fa x.2) x.1) (fB x.1 or i x.2)
+  let outsL : List (Option (Array S)) := (List.range h.orc).map fun or =>
+    (pairs h.irc (ceilDiv h.r h.s)).foldl (fun acc x => accAdd (· + ·) 0 h.N acc (gterm or x)) none
+  have houtsM : (List.range h.orc).mapM (fun or =>
+      (pairs h.irc (ceilDiv h.r h.s)).foldlM (fun (acc : Option (Array S)) irj => do
+        let aj ← getSlots ((List.range (ceilDiv h.r h.s)).map fa) irj.2
+        let row ← getRow ((pairs h.irc h.orc).map fun (io : Nat × Nat) =>
+          (pairs (ceilDiv h.n h.s) (ceilDiv h.r h.s)).map fun (ij : Nat × Nat) => fB io.1 io.2 ij.1 ij.2) (irj.1 * h.orc + or)
+        let b ← getSlots row (i * ceilDiv h.r h.s + irj.2)
+        (pure (accAdd (· + ·) 0 h.N acc (slotZip (· * ·) 0 h.N (boltCpRotIn h 0 aj irj.1) b)) : R (Option (Array S)))) none)
+      = .ok outsL := by
+    apply c20_mapM_eq
+    intro or hor
+    apply c20_foldlM_pure
+    intro st x hx
+    obtain ⟨hx1, hx2⟩ := c20_mem_pairs.mp hx
+    rw [c20_getSlots_map _ _ _ hx2]
+    have hrow : getRow ((pairs h.irc h.orc).map fun io =>
+        (pairs (ceilDiv h.n h.s) (ceilDiv h.r h.s)).map fun ij => fB io.1 io.2 ij.1 ij.2) (x.1 * h.orc + or)
+        = .ok ((pairs (ceilDiv h.n h.s) (ceilDiv h.r h.s)).map fun ij => fB x.1 or ij.1 ij.2) := by
+      unfold getRow
+      rw [c20_pairs_map_getElem? _ _ _ _ _ hx1 (List.mem_range.mp hor)]
+    have hb : getSlots ((pairs (ceilDiv h.n h.s) (ceilDiv h.r h.s)).map fun ij => fB x.1 or ij.1 ij.2) (i * ceilDiv h.r h.s + x.2)
+        = .ok (fB x.1 or i x.2) := by
+      unfold getSlots
+      rw [c20_pairs_map_getElem? _ _ _ _ _ (List.mem_range.mp _hmem) hx2]
+    show (do
+        let row ← getRow _ (x.1 * h.orc + or)
+        let b ← getSlots row (i * ceilDiv h.r h.s + x.2)
+        (pure (accAdd (· + ·) 0 h.N st (slotZip (· * ·) 0 h.N (boltCpRotIn h 0 (fa x.2) x.1) b)) : R (Option (Array S)))) = _
+    rw [hrow]
+    show (do
+        let b ← getSlots _ (i * ceilDiv h.r h.s + x.2)
+        (pure (accAdd (· + ·) 0 h.N st (slotZip (· * ·) 0 h.N (boltCpRotIn h 0 (fa x.2) x.1) b)) : R (Option (Array S)))) = _
+    rw [hb]
+    rfl
+  rw [houtsM]
+  -- the tail as a pure fold
+  have hbind : ∀ {α β : Type} (a : α) (f : α → R β), (Except.ok a >>= f) = f a := fun _ _ => rfl
+  simp only [hbind]
+  rw [c20_foldlM_pure _ (c20_cpTailStep h outsL)]
+  swap
+  · intro st or _
+    obtain ⟨s1, s2⟩ := st
+    unfold c20_cpTailStep
+    by_cases hc : h.irc * h.gap < h.N / 2 <;> by_cases ho : or = h.orc / 2 <;>
+      cases s1 <;> cases outsL.getD or none <;> (try simp only [hc, ho, if_true, if_false]) <;> (try rfl)
+  simp only [hbind]
+  -- the slot view of class `or`
+  have houts : ∀ or, or < h.orc → ∃ v, outsL.getD or none = some v ∧ v.size = h.N ∧ ∀ p, p < h.N → v.getD p 0
+      = ∑ ir ∈ range h.irc, ∑ j ∈ range (ceilDiv h.r h.s), (boltCpRotIn h 0 (fa j) ir).getD p 0 * (fB ir or i j).getD p 0 := by
+    intro or hor
+    have hne := c20_accFold_ne_none (· + ·) h.N (gterm or) (pairs h.irc (ceilDiv h.r h.s)) none
+      (Or.inl (c20_pairs_ne_nil ok.hirc hic))
+    obtain ⟨v, hv⟩ := Option.ne_none_iff_exists'.mp hne
+    refine ⟨v, by rw [c20_range_map_getD _ _ _ _ hor]; exact hv, ?_, ?_⟩
+    · exact c20_accFold_wf (· + ·) h.N (gterm or) _ none (fun x _ => c20_slotZip_size _ _ _ _ _) (c20_wf_none _) v hv
+    · intro p hp
+      have := c20_accFold_og h.N (gterm or) hp (pairs h.irc (ceilDiv h.r h.s)) none
+      rw [hv, c20_list_sum_pairs] at this
+      show c20_og (some v) p = _
+      rw [this]
+      show 0 + _ = _
+      rw [zero_add]
+      apply Finset.sum_congr rfl
+      intro ir _
+      apply Finset.sum_congr rfl
+      intro j _
+      exact c20_slotZip_get _ _ _ _ _ hp
+  obtain ⟨hv, fin, hst2, hfin, hfsz, hfv⟩ := c20_cpTail_spec h ok outsL _ houts
+  refine ⟨fin, ?_, hfsz, ?_⟩
+  · simp only [hst2]
+    rw [hfin]
+    rfl
+  · intro k t hk ht
+    have hk' : k < 2 * half := by rw [← ok.hs]; exact hk
+    have hp : k * h.gap + t < h.N := by
+      rw [ok.hN]; have := c20_succ_mul_le (ib := h.gap) hk; omega
+    have hN' : h.N = 2 * half * h.gap := by rw [ok.hN, ok.hs]
+    have hval : ∀ or, or < h.orc →
+        (∑ ir ∈ range h.irc, ∑ j ∈ range (ceilDiv h.r h.s),
+          (boltCpRotIn h 0 (fa j) ir).getD (boltShift half k (or * h.irc) * h.gap + t) 0
+            * (fB ir or i j).getD (boltShift half k (or * h.irc) * h.gap + t) 0)
+        = ∑ ir ∈ range h.irc, ∑ j ∈ range (ceilDiv h.r h.s),
+          (fa j).getD (boltShift half k (or * h.irc + ir) * h.gap + t) 0
+            * (fB ir or i j).getD (boltShift half k (or * h.irc) * h.gap + t) 0 := by
+      intro or _
+      apply Finset.sum_congr rfl
+      intro ir hir
+      have hir' := Finset.mem_range.mp hir
+      have hirs : ir < 2 * half := by
+        have : h.irc ≤ half := by rw [ok.half_eq]; exact Nat.le_mul_of_pos_right _ ok.hh2
+        omega
+      apply Finset.sum_congr rfl
+      intro j _
+      rw [c20_boltCpRotIn_col h 0 half hh ok.hs hN' (fa j) ir hirs _ t (c20_boltShift_lt half k _ hh) ht,
+        c20_boltShift_comp ok.half_eq hh hir']
+    rw [hfv _ hp, ← Finset.sum_range_add_sum_Ico _ (by have := ok.ho; omega : h2 ≤ h.orc)]
+    congr 1
+    · apply Finset.sum_congr rfl
+      intro or hor
+      have hor' := Finset.mem_range.mp hor
+      rw [c20_cp_connect_lo ok.half_eq hh hor' hk' ht]
+      exact hval or (by have := ok.ho; omega)
+    · apply Finset.sum_congr rfl
+      intro or hor
+      obtain ⟨hor1, hor2⟩ := Finset.mem_Ico.mp hor
+      rw [c20_cp_connect_hi ok.half_eq hh hor1 (by rw [← ok.ho]; exact hor2) hk' ht]
+      exact hval or hor2
+
+/-! ### end to end -/
+
+theorem c20_sum_range_mul {M : Type} [AddCommMonoid M] (F : Nat → M) (A B : Nat) :
+    ∑ a ∈ range A, ∑ b ∈ range B, F (a * B + b) = ∑ x ∈ range (A * B), F x := by
+  induction A with
+  | zero => simp
+  | succ A ih => rw [Finset.sum_range_succ, ih, Nat.succ_mul, Finset.sum_range_add]
+
+theorem c20_readAt_getD (z : S) (a : Array S) {i : Nat} (hi : i < a.size) : readAt a i = .ok (a.getD i z) := by
+  unfold readAt
+  rw [Array.getElem?_eq_getElem hi]
+  simp [Array.getD, hi]
+
+/-- **`MatmulBoltCp`, whole pipeline** (any commutative ring, every helper satisfying `c20_CpOK`: every shape, every split
+    `s = irc·orc` with `orc` even): encode the inputs (column-major row parts) and the weights (one polynomial per rotation class
+    and polynomial pair), run the rotate-multiply-accumulate schedule of `multiply` on the slot vectors and decode:
+    the result is the matrix product `x · w`, row major `m × n`. -/
+theorem c20_boltCp_whole [CommRing S] (h : BoltCp) {half h2 : Nat} (ok : c20_CpOK h half h2) (x w : Nat → S) :
+    ∃ X W Y out, boltCpEncodeInputs h 0 x (h.mAll * h.r) = .ok X ∧ boltCpEncodeWeights h 0 w (h.r * h.n) = .ok W ∧
+      boltCpMultiply h (· + ·) (· * ·) 0 X W = .ok Y ∧ boltCpDecodeOutputs h 0 Y = .ok out ∧ out.size = h.mAll * h.n ∧
+      ∀ i j, i < h.mAll → j < h.n → out.getD (i * h.n + j) 0 = ∑ k ∈ range h.r, x (i * h.r + k) * w (k * h.n + j) := by
+  have hh := ok.half_pos
+  have hspos : 0 < h.s := by rw [ok.hs]; omega
+  -- the product of every row part
+  obtain ⟨Y, hY, hlen, hall⟩ := c20_mapM_spec
+    (fun a => boltCpMulPart h (· + ·) (· * ·) 0 a
+      ((pairs h.irc h.orc).map fun io => (pairs (ceilDiv h.n h.s) (ceilDiv h.r h.s)).map fun ij => c20_cpW 0 h w io.1 io.2 ij.1 ij.2))
+    (fun (a : List (Array S)) (Yp : List (Array S)) => Yp.length = ceilDiv h.n h.s ∧
+      ∀ i, i < ceilDiv h.n h.s → ∃ v, Yp[i]? = some v ∧ v.size = h.N ∧ ∀ k t, k < h.s → t < h.gap →
+        v.getD (k * h.gap + t) 0 = ∑ or ∈ range h.orc, ∑ ir ∈ range h.irc, ∑ j ∈ range (ceilDiv h.r h.s),
+          (a.getD j #[]).getD (boltShift half k (or * h.irc + ir) * h.gap + t) 0
+            * (c20_cpW 0 h w ir or i j).getD (boltShift half k (or * h.irc) * h.gap + t) 0)
+    ((List.range (ceilDiv h.mAll h.m)).map fun p => (List.range (ceilDiv h.r h.s)).map fun i =>
+      c20_colMajorArr 0 h.N h.gap h.s h.m h.mAll h.r x p i)
+    (by
+      intro a ha
+      obtain ⟨p, _, rfl⟩ := List.mem_map.mp ha
+      obtain ⟨Yp, hYp, hl, hv⟩ := c20_cpMulPart_spec h ok (fun i => c20_colMajorArr 0 h.N h.gap h.s h.m h.mAll h.r x p i)
+        (fun ir or i j => c20_cpW 0 h w ir or i j)
+      refine ⟨Yp, hYp, hl, ?_⟩
+      intro i hi
+      obtain ⟨v, h1, h2', h3⟩ := hv i hi
+      refine ⟨v, h1, h2', ?_⟩
+      intro k t hk ht
+      rw [h3 k t hk ht]
+      apply Finset.sum_congr rfl; intro or _
+      apply Finset.sum_congr rfl; intro ir _
+      apply Finset.sum_congr rfl; intro j hj
+      rw [c20_range_map_getD _ _ _ _ (Finset.mem_range.mp hj)])
+  simp only [List.length_map, List.length_range] at hlen hall
+  have hmul : boltCpMultiply h (· + ·) (· * ·) 0
+      ((List.range (ceilDiv h.mAll h.m)).map fun p => (List.range (ceilDiv h.r h.s)).map fun i =>
+        c20_colMajorArr 0 h.N h.gap h.s h.m h.mAll h.r x p i)
+      ((pairs h.irc h.orc).map fun io => (pairs (ceilDiv h.n h.s) (ceilDiv h.r h.s)).map fun ij => c20_cpW 0 h w io.1 io.2 ij.1 ij.2)
+      = .ok Y := by
+    unfold boltCpMultiply
+    rw [if_neg (by simp)]
+    exact hY
+  -- decoding
+  have hany : (Y.any fun p => p.length ≠ ceilDiv h.n h.s) = false := by
+    rw [List.any_eq_false]
+    intro part hpart
+    obtain ⟨p, hp, hget⟩ := List.getElem_of_mem hpart
+    obtain ⟨b, hb, hbl, _⟩ := hall p (by omega)
+    rw [List.getElem?_eq_getElem hp, hget] at hb
+    cases hb
+    simp [hbl]
+  obtain ⟨out, hout, hosz, hoval⟩ := c20_boltColMajorDecode_spec (0 : S) h.gap h.s h.m h.mAll h.n Y
+    (fun row col => ∑ k ∈ range h.r, x (row * h.r + k) * w (k * h.n + col)) ok.hm0 hlen
+    (by
+      intro p hp
+      obtain ⟨part, hpart, hpl, hpv⟩ := hall p hp
+      refine ⟨part, by unfold getRow; rw [hpart], ?_⟩
+      intro i j hi hj
+      have hjo : j / h.s < ceilDiv h.n h.s := c20_div_lt_ceilDiv hspos hj
+      have hjk : j % h.s < h.s := Nat.mod_lt _ hspos
+      have hig : i < h.gap := by have := ok.hmg; omega
+      obtain ⟨v, hv, hvs, hvv⟩ := hpv (j / h.s) hjo
+      refine ⟨v, by unfold getSlots; rw [hv], ?_⟩
+      have hlt : j % h.s * h.gap + i < v.size := by
+        rw [hvs, ok.hN]; have := c20_succ_mul_le (ib := h.gap) hjk; omega
+      rw [c20_readAt_getD 0 v hlt, hvv _ _ hjk hig]
+      congr 1
+      -- the value: re-index the rotation classes, then the columns
+      have ej : j / h.s * h.s + j % h.s = j := Nat.div_add_mod' j h.s
+      let G : Nat → S := fun q => if q < h.r then x ((p * h.m + i) * h.r + q) * w (q * h.n + j) else 0
+      have hterm : ∀ or, or < h.orc → ∀ ir jj,
+          ((((List.range (ceilDiv h.mAll h.m)).map fun p => (List.range (ceilDiv h.r h.s)).map fun i =>
+              c20_colMajorArr 0 h.N h.gap h.s h.m h.mAll h.r x p i)[p]'(by simpa using hp)).getD jj #[]).getD
+                (boltShift half (j % h.s) (or * h.irc + ir) * h.gap + i) 0
+            * (c20_cpW 0 h w ir or (j / h.s) jj).getD (boltShift half (j % h.s) (or * h.irc) * h.gap + i) 0
+          = if jj < ceilDiv h.r h.s then G (jj * h.s + boltShift half (j % h.s) (or * h.irc + ir)) else 0 := by
+        intro or hor ir jj
+        rw [List.getElem_map, List.getElem_range]
+        by_cases hjj : jj < ceilDiv h.r h.s
+        · rw [if_pos hjj, c20_range_map_getD _ _ _ _ hjj]
+          have hc : boltShift half (j % h.s) (or * h.irc + ir) < h.s := by rw [ok.hs]; exact c20_boltShift_lt _ _ _ hh
+          rw [(c20_colMajorArr_get 0 h.N h.gap h.s h.m h.mAll h.r x ok.hN ok.hmg p jj hc hig).2,
+            (c20_cpW_get 0 h ok w ir (j / h.s) jj hor hjk hig).2]
+          show _ = if _ < h.r then _ else 0
+          by_cases hq : jj * h.s + boltShift half (j % h.s) (or * h.irc + ir) < h.r
+          · rw [if_pos ⟨by omega, hq⟩, if_pos ⟨hq, by omega⟩, if_pos hq, ej]
+          · rw [if_neg (fun hc' => hq hc'.2), if_neg hq, zero_mul]
+        · rw [if_neg hjj]
+          have : ((List.range (ceilDiv h.r h.s)).map fun i => c20_colMajorArr 0 h.N h.gap h.s h.m h.mAll h.r x p i).getD jj #[] = #[] := by
+            simp [List.getD, hjj]
+          rw [this]
+          simp
+      have hsum1 : (∑ or ∈ range h.orc, ∑ ir ∈ range h.irc, ∑ jj ∈ range (ceilDiv h.r h.s),
+          ((((List.range (ceilDiv h.mAll h.m)).map fun p => (List.range (ceilDiv h.r h.s)).map fun i =>
+              c20_colMajorArr 0 h.N h.gap h.s h.m h.mAll h.r x p i)[p]'(by simpa using hp)).getD jj #[]).getD
+                (boltShift half (j % h.s) (or * h.irc + ir) * h.gap + i) 0
+            * (c20_cpW 0 h w ir or (j / h.s) jj).getD (boltShift half (j % h.s) (or * h.irc) * h.gap + i) 0)
+          = ∑ rot ∈ range (h.orc * h.irc), ∑ jj ∈ range (ceilDiv h.r h.s), G (jj * h.s + boltShift half (j % h.s) rot) := by
+        rw [← c20_sum_range_mul]
+        apply Finset.sum_congr rfl; intro or hor
+        apply Finset.sum_congr rfl; intro ir _
+        apply Finset.sum_congr rfl; intro jj hjj
+        rw [hterm or (Finset.mem_range.mp hor) ir jj, if_pos (Finset.mem_range.mp hjj)]
+      rw [hsum1, Nat.mul_comm h.orc, ok.hio, Finset.sum_comm]
+      have hsum2 : ∀ jj, (∑ rot ∈ range h.s, G (jj * h.s + boltShift half (j % h.s) rot)) = ∑ c ∈ range h.s, G (jj * h.s + c) := by
+        intro jj
+        rw [ok.hs]
+        exact c20_bolt_bsgs_sum (fun c => G (jj * (2 * half) + c)) half (j % (2 * half)) hh
+      rw [Finset.sum_congr rfl (fun jj _ => hsum2 jj), c20_sum_range_mul G]
+      have hsub : range h.r ⊆ range (ceilDiv h.r h.s * h.s) := by
+        intro q hq
+        have := c20_le_ceilDiv_mul h.r h.s hspos
+        exact Finset.mem_range.mpr (lt_of_lt_of_le (Finset.mem_range.mp hq) this)
+      rw [← Finset.sum_subset hsub (fun q _ hq => by
+        show (if q < h.r then _ else 0) = 0
+        rw [if_neg (fun hlt => hq (Finset.mem_range.mpr hlt))])]
+      apply Finset.sum_congr rfl
+      intro q hq
+      show (if q < h.r then _ else 0) = _
+      rw [if_pos (Finset.mem_range.mp hq)])
+  refine ⟨_, _, Y, out, c20_boltCpEncodeInputs_ok 0 h ok x, c20_boltCpEncodeWeights_ok 0 h ok w, hmul, ?_, hosz, hoval⟩
+  unfold boltCpDecodeOutputs
+  rw [hany]
+  exact hout
+
+/-- **... for every helper `MatmulBoltCp::new` accepts** (positive dimensions, `N` a power of two with at least two columns per
+    polynomial, `usize` range), with the baby-step / giant-step split the constructor's search returns -/
+theorem c20_boltCp_new [CommRing S] {m r n N : Nat} {h : BoltCp} (hnew : BoltCp.new m r n N = .ok h) (hpow : ∃ e, N = 2^e)
+    (hN64 : N < 2^64) (x w : Nat → S) :
+    ∃ X W Y out, boltCpEncodeInputs h 0 x (m * r) = .ok X ∧ boltCpEncodeWeights h 0 w (r * n) = .ok W ∧
+      boltCpMultiply h (· + ·) (· * ·) 0 X W = .ok Y ∧ boltCpDecodeOutputs h 0 Y = .ok out ∧ out.size = m * n ∧
+      ∀ i j, i < m → j < n → out.getD (i * n + j) 0 = ∑ k ∈ range r, x (i * r + k) * w (k * n + j) := by
+  obtain ⟨_, hm, _, hr, hn, half, h2, ok⟩ := c20_boltCpNew_ok hnew hpow hN64
+  have := c20_boltCp_whole h ok x w
+  rw [hm, hr, hn] at this
+  exact this
 
 end HC
